@@ -311,7 +311,7 @@ class MTVRPEnv(RL4COEnvBase):
             td["time_windows"][..., 0] < td["time_windows"][..., 1]
         ), "there are unfeasible time windows"
         assert torch.all(
-            td["time_windows"][..., :, 0] + d_j0 + td["service_time"]
+            td["time_windows"][..., :, 0] + d_j0 / td["speed"] + td["service_time"]
             <= td["time_windows"][..., 0, 1, None]
         ), "vehicle cannot perform service and get back to depot in time."
         # check individual time windows
